@@ -43,8 +43,10 @@ func cvF2(args ...ugo.Object) (ugo.Object, error) { return ugo.True, nil }
 type cvStruct struct{ A int }
 
 var (
-	cvFuncs     = []ugo.CallableFunc{cvF1, cvF2}
-	cvErrs      = []error{errors.New("boom"), errors.New(""), &os.PathError{Op: "open", Path: "/x", Err: errors.New("nope")}}
+	cvFuncs = []ugo.CallableFunc{cvF1, cvF2}
+	cvErrs  = []error{errors.New("boom"), errors.New(""), &os.PathError{Op: "open", Path: "/x", Err: errors.New("nope")},
+		// non-nil errors whose dynamic type is a slice, map or func type holding nil: they are errors, not nil
+		cvMultiErr(nil), cvMultiErr{errors.New("a"), nil}, cvMapErr(nil), cvMapErr{"k": "v"}, cvFuncErr(nil)}
 	cvNilErrs   = []error{(*os.PathError)(nil), (*os.SyscallError)(nil), (*json.SyntaxError)(nil)}
 	cvLocs      = []*time.Location{time.UTC, time.FixedZone("X", 3600)}
 	cvTimes     = []time.Time{{}, time.Unix(0, 0).UTC(), time.Unix(1700000000, 123456789).In(cvLocs[1]), time.Unix(1<<40, 999999999).UTC()}
@@ -113,6 +115,23 @@ func cvFuncID(f ugo.CallableFunc) int {
 		}
 	}
 	return 0
+}
+
+type cvMultiErr []error
+
+func (m cvMultiErr) Error() string { return fmt.Sprintf("multi(%d)", len(m)) }
+
+type cvMapErr map[string]string
+
+func (m cvMapErr) Error() string { return fmt.Sprintf("maperr(%d)", len(m)) }
+
+type cvFuncErr func() string
+
+func (f cvFuncErr) Error() string {
+	if f == nil {
+		return "nilfunc"
+	}
+	return f()
 }
 
 func cvErrID(e error) (id int) {
